@@ -246,6 +246,10 @@ def run_case(case):
                     if not isinstance(got, float):
                         raise Violation("proc-percent", f"cpu_percent({interval!r}) returned {got!r}, not a float")
                     nowt = (k.now, proc.utime + proc.stime)
+                    if blocking and Fraction(nowt[0]) - Fraction(t_start[0]) < Fraction(interval) * Fraction(999, 1000):
+                        raise Violation("proc-blocking-interval",
+                                        f"cpu_percent({interval!r}) returned after {nowt[0] - t_start[0]} s of "
+                                        f"(virtual) time: the two samples are not {interval} s apart")
                     if blocking:
                         prev = t_start
                     else:
@@ -288,6 +292,7 @@ def run_case(case):
 
                 if blocking:
                     k.on_time = during
+                now_before = k.now
                 fn = getattr(psutil, api)
                 if api == "cpu_times":
                     kind, got = workers.run(thr, lambda: fn(percpu=percpu))
@@ -304,6 +309,11 @@ def run_case(case):
                     raise Violation("no-exception", f"{api}({interval!r}, percpu={percpu}) raised {got!r}")
                 if api != "cpu_times" and interval is not None and interval < 0:
                     raise Violation("negative-interval", f"{api}({interval!r}) returned {got!r}")
+                if api != "cpu_times" and blocking and \
+                        Fraction(k.now) - Fraction(now_before) < Fraction(interval) * Fraction(999, 1000):
+                    raise Violation("blocking-interval",
+                                    f"{api}({interval!r}) returned after {k.now - now_before} s of (virtual) "
+                                    f"time: its two samples are not {interval} s apart")
 
                 sel = (lambda s: list(s[1])) if percpu else (lambda s: [s[0]])
                 if api == "cpu_times":
